@@ -52,3 +52,13 @@ chk("C20", "exploration", "property-based testing (Hypothesis): generated pricin
     "equal the coins accepted. Search, not proof.",
     "Configs representable in whole credit units only; expiry instants never coincide with operations; presses >= 100 ms apart.",
     "DESIGN.md §4 C20, appendix A.4")
+chk("C12", "exploration", "property-based testing (Hypothesis): generated section sources over the enumerated config_spec vs. a validity predicate per validator kind",
+    "For every section and sub-section of the loaded config_spec (enumerated; ~1 690 typed keys, coverage of (section, key) "
+    "pairs is counted) generated sources mixing valid-looking, boundary, wrong-typed, nested, None/empty, token and "
+    "template values - optionally with unknown keys at top level or inside sub-configs - are validated; the call must "
+    "either raise or return a config where every spec key is present, every value satisfies its validator's predicate "
+    "(type, range, enum, device, container members, recursively through sub-configs), no unknown key was accepted, no "
+    "provided key dropped and the spec is unchanged. Time strings: accepted values equal number x unit within 1 ms and the "
+    "documented forms are accepted. Search, not proof.",
+    "Any exception is a rejection; None is allowed everywhere; colours checked for shape only; pow2 returns its input unconverted (repo test).",
+    "DESIGN.md §4 C12")
